@@ -5,6 +5,7 @@ node) then no mutation whatsoever delivers to `k`, and the state persists.
 No hypothesis on the heap: holds through cycles, sharing and the F10 situations.
 -/
 import TraitsVerif.Lemmas.ObsMutate
+import TraitsVerif.Lemmas.ObsTouch
 namespace TraitsVerif.Model.Obs
 open TraitsVerif
 
@@ -148,93 +149,6 @@ theorem removeItem_quiet (k : HKey) (it : Item) (H H' : Hooks) (hq : QuietInv H 
       | maint mk g k' => rw [hit] at hr; exact maintRemove_good k mk g k' _ _ (hq it.1) hr n hn
     · exact hq o n hn
 
-theorem applyOwn_quiet (k : HKey) (rm : Bool) (its : List Item) (H : Hooks) (done : List Item)
-    (hq : QuietInv H k) (hi : GoodItems k its) (hd : GoodItems k done) :
-    QuietInv (applyOwn rm its H done).1 k ∧ GoodItems k (applyOwn rm its H done).2.1 := by
-  induction its generalizing H done with
-  | nil => exact ⟨hq, hd⟩
-  | cons it its ih =>
-    have hit := hi it (List.mem_cons_self ..)
-    have hrest : GoodItems k its := fun i hi' => hi i (List.mem_cons_of_mem _ hi')
-    have hd' : GoodItems k (it :: done) := by
-      intro i hi'
-      cases hi' with
-      | head => exact hit
-      | tail _ h => exact hd i h
-    cases rm with
-    | true =>
-      simp only [applyOwn, if_true]
-      cases hr : removeItem it H with
-      | error e => exact ⟨hq, hd⟩
-      | ok H' => exact ih H' _ (removeItem_quiet k it H H' hq hr) hrest hd'
-    | false =>
-      simp only [applyOwn, Bool.false_eq_true, if_false]
-      exact ih _ _ (addItem_quiet k it H hq hit) hrest hd'
-
-theorem undo_quiet (k : HKey) (rm : Bool) (done : List Item) (H : Hooks) (hq : QuietInv H k)
-    (hd : GoodItems k done) : QuietInv (undo rm done H) k := by
-  induction done generalizing H with
-  | nil => exact hq
-  | cons it done ih =>
-    have hit := hd it (List.mem_cons_self ..)
-    have hrest : GoodItems k done := fun i hi' => hd i (List.mem_cons_of_mem _ hi')
-    simp only [undo]
-    apply ih _ _ hrest
-    cases rm with
-    | true => simp only [if_true]; exact addItem_quiet k it H hq hit
-    | false =>
-      simp only [Bool.false_eq_true, if_false]
-      cases hr : removeItem it H with
-      | error e => exact hq
-      | ok H' => exact removeItem_quiet k it H H' hq hr
-
-theorem goodItems_nil (k : HKey) : GoodItems k [] := by intro it h; cases h
-
-theorem notifStep_quiet (h : Heap) (k k' : HKey) (rm : Bool) (ob : Observer) (x : W) (H : Hooks) (done : List Item)
-    (hn : ob.notify = true → k' ≠ k) (hq : QuietInv H k) (hd : GoodItems k done) :
-    QuietInv (notifStep h k' rm ob x H done).1 k ∧ GoodItems k (notifStep h k' rm ob x H done).2.1 := by
-  unfold notifStep
-  split
-  · rename_i hnt
-    split
-    · exact ⟨hq, hd⟩
-    · apply applyOwn_quiet k rm _ H done hq _ hd
-      intro it hit
-      simp only [List.mem_map] at hit
-      obtain ⟨o, _, rfl⟩ := hit
-      exact hn hnt
-  · exact ⟨hq, hd⟩
-
-theorem maintStep_quiet (h : Heap) (k k' : HKey) (rm : Bool) (ob : Observer) (cs : List Graph) (x : W)
-    (H : Hooks) (done : List Item) (hc : k' = k → ∀ c ∈ cs, c.quiet = true) (hq : QuietInv H k)
-    (hd : GoodItems k done) :
-    QuietInv (maintStep h k' rm ob cs x H done).1 k ∧ GoodItems k (maintStep h k' rm ob cs x H done).2.1 := by
-  unfold maintStep
-  split
-  · exact ⟨hq, hd⟩
-  · apply applyOwn_quiet k rm _ H done hq _ hd
-    intro it hit
-    simp only [List.mem_flatMap, List.mem_map] at hit
-    obtain ⟨o, _, c, hcm, rfl⟩ := hit
-    exact fun e => hc e c hcm
-
-theorem extraStep_quiet (h : Heap) (k k' : HKey) (rm : Bool) (g : Graph) (x : W) (H : Hooks)
-    (hg : k' = k → g.quiet = true) (hq : QuietInv H k) : QuietInv (extraStep h k' rm g x H).H k := by
-  unfold extraStep
-  split
-  · exact hq
-  · rename_i os _
-    have hi : GoodItems k (os.map (fun o => (o, NKey.maint .added g k'))) := by
-      intro it hit
-      simp only [List.mem_map] at hit
-      obtain ⟨o, _, rfl⟩ := hit
-      exact hg
-    obtain ⟨a, b⟩ := applyOwn_quiet k rm _ H [] hq hi (goodItems_nil k)
-    simp only []
-    split
-    · exact undo_quiet k rm _ _ a b
-    · exact a
-
 theorem foldRes_pres (P : Hooks → Prop) (f : W → Hooks → Res) (hf : ∀ y H, P H → P (f y H).H)
     (ys : List W) (H : Hooks) (hP : P H) : P (foldRes f ys H).H := by
   induction ys generalizing H with
@@ -245,85 +159,43 @@ theorem foldRes_pres (P : Hooks → Prop) (f : W → Hooks → Res) (hf : ∀ y 
     · exact hf y H hP
     · exact ih _ (hf y H hP)
 
-def QuietSpec (h : Heap) (k k' : HKey) (g : Graph) : Prop :=
-  (k' = k → g.quiet = true) → ∀ (rm extra : Bool) (x : W) (H : Hooks), QuietInv H k →
-    QuietInv (addRemove h k' rm extra g x H).H k
-
-theorem addRemoveCs_quiet (h : Heap) (k k' : HKey) (rm : Bool) (ob : Observer) (x : W) (cs : List Graph)
-    (ih : ∀ c ∈ cs, QuietSpec h k k' c) (hc : k' = k → ∀ c ∈ cs, c.quiet = true) (H : Hooks)
-    (hq : QuietInv H k) : QuietInv (addRemoveCs h k' rm ob x cs H).H k := by
-  induction cs generalizing H with
-  | nil => exact hq
-  | cons c cs ihcs =>
-    simp only [addRemoveCs]
-    split
-    · exact hq
-    · rename_i ys _
-      have h1 : QuietInv (foldRes (addRemove h k' rm true c) ys H).H k :=
-        foldRes_pres (fun H => QuietInv H k) _
-          (fun y H' hP => ih c (List.mem_cons_self ..) (fun e => hc e c (List.mem_cons_self ..)) rm true y H' hP)
-          ys H hq
-      split
-      · exact h1
-      · exact ihcs (fun c' hc' => ih c' (List.mem_cons_of_mem _ hc'))
-          (fun e c' hc' => hc e c' (List.mem_cons_of_mem _ hc')) _ h1
-
-theorem addRemove_quiet' (h : Heap) (k k' : HKey) : ∀ g : Graph, QuietSpec h k k' g := by
-  apply Graph.ind
-  intro ob cs ih hg rm extra x H hq
+/-- every item a walk for key `k'` can touch is good for `k` when `k' ≠ k` or the graph is quiet -/
+theorem hookList_good (h : Heap) (k k' : HKey) :
+    ∀ g : Graph, (k' = k → g.quiet = true) → ∀ (e : Bool) (x : W), ∀ it ∈ hookList h k' e g x, GoodKey k it.2 := by
+  apply Graph.ind (P := fun g => (k' = k → g.quiet = true) → ∀ (e : Bool) (x : W),
+    ∀ it ∈ hookList h k' e g x, GoodKey k it.2)
+  intro ob cs ih hg e x it hit
   have hnot : ob.notify = true → k' ≠ k := by
-    intro hn e
-    have := ((Graph.quiet_node ob cs).1 (hg e)).1
+    intro hn e'
+    have := ((Graph.quiet_node ob cs).1 (hg e')).1
     rw [hn] at this; cases this
-  have hcs : k' = k → ∀ c ∈ cs, c.quiet = true := fun e => ((Graph.quiet_node ob cs).1 (hg e)).2
-  cases rm with
-  | true =>
-    rw [addRemove_rm_unfold]
-    have r1 : QuietInv (if extra then extraStep h k' true (.node ob cs) x H else ⟨H, none⟩ : Res).H k := by
-      split
-      · exact extraStep_quiet h k k' true _ x H hg hq
-      · exact hq
-    simp only []
-    split
-    · exact r1
-    · have r2 := addRemoveCs_quiet h k k' true ob x cs ih hcs _ r1
-      split
-      · exact r2
-      · obtain ⟨a3, b3⟩ := maintStep_quiet h k k' true ob cs x _ [] hcs r2 (goodItems_nil k)
-        split
-        · exact undo_quiet k true _ _ a3 b3
-        · obtain ⟨a4, b4⟩ := notifStep_quiet h k k' true ob x _ _ hnot a3 b3
-          split
-          · exact undo_quiet k true _ _ a4 b4
-          · exact a4
-  | false =>
-    rw [addRemove_add_unfold]
-    obtain ⟨a1, b1⟩ := notifStep_quiet h k k' false ob x H [] hnot hq (goodItems_nil k)
-    simp only []
-    split
-    · exact undo_quiet k false _ _ a1 b1
-    · obtain ⟨a2, b2⟩ := maintStep_quiet h k k' false ob cs x _ _ hcs a1 b1
-      split
-      · exact undo_quiet k false _ _ a2 b2
-      · have r3 := addRemoveCs_quiet h k k' false ob x cs ih hcs _ a2
-        split
-        · exact undo_quiet k false _ _ r3 b2
-        · have r4 : QuietInv (if extra then extraStep h k' false (.node ob cs) x
-              (addRemoveCs h k' false ob x cs (maintStep h k' false ob cs x (notifStep h k' false ob x H []).1
-                (notifStep h k' false ob x H []).2.1).1).H else
-              ⟨(addRemoveCs h k' false ob x cs (maintStep h k' false ob cs x (notifStep h k' false ob x H []).1
-                (notifStep h k' false ob x H []).2.1).1).H, none⟩ : Res).H k := by
-            split
-            · exact extraStep_quiet h k k' false _ x _ hg r3
-            · exact r3
-          split
-          · exact undo_quiet k false _ _ r4 b2
-          · exact r4
+  have hcs : k' = k → ∀ c ∈ cs, c.quiet = true := fun e' => ((Graph.quiet_node ob cs).1 (hg e')).2
+  rw [hookList_node, List.mem_append, List.mem_append] at hit
+  rcases hit with (h1 | h1) | h1
+  · simp only [ownItems, List.mem_append, List.mem_flatMap, List.mem_map] at h1
+    rcases h1 with h2 | ⟨ob', _, c, hc, rfl⟩
+    · split at h2
+      · rename_i hn
+        simp only [List.mem_map] at h2
+        obtain ⟨ob', _, rfl⟩ := h2
+        exact hnot hn
+      · cases h2
+    · exact fun e' => hcs e' c hc
+  · obtain ⟨c, hc, y, _, hm⟩ := (mem_hookListCs h k' ob x cs it).1 h1
+    exact ih c hc (fun e' => hcs e' c hc) true y it hm
+  · split at h1
+    · simp only [extraItems, List.mem_map] at h1
+      obtain ⟨ob', _, rfl⟩ := h1
+      exact hg
+    · cases h1
 
 theorem addRemove_quiet (h : Heap) (k k' : HKey) (g : Graph) (hg : k' = k → g.quiet = true)
     (rm extra : Bool) (x : W) (H : Hooks) (hq : QuietInv H k) :
     QuietInv (addRemove h k' rm extra g x H).H k :=
-  addRemove_quiet' h k k' g hg rm extra x H hq
+  addRemove_touch (fun H => QuietInv H k) (fun it => GoodKey k it.2)
+    (fun it H hi hP => addItem_quiet k it H hP hi)
+    (fun it H H' _ hP hr => removeItem_quiet k it H H' hP hr)
+    h k' g rm extra x H (hookList_good h k k' g hg extra x) hq
 
 /-! ### mutations -/
 
